@@ -5,6 +5,13 @@ set -u
 F="$(readlink -f "$1")"; PKG="$2"; REPO="${3:-/repo}"; EXTRA="${4:-}"
 D=$(mktemp -d /var/tmp/sonicvc-scn-XXXX)
 trap 'rm -rf "$D"' EXIT
-echo "{\"Replace\":{\"$REPO/$PKG/zz_sonicvc_scenario_test.go\":\"$F\"}}" > "$D/ov.json"
+# helper files next to the scenario named <prefix>_*helper_test.go are injected too
+OV="\"$REPO/$PKG/zz_sonicvc_scenario_test.go\":\"$F\""
+i=0
+for H in "$(dirname "$F")"/$(basename "$F" | cut -d_ -f1)_*helper_test.go; do
+  [ -f "$H" ] || continue
+  i=$((i+1)); OV="$OV,\"$REPO/$PKG/zz_sonicvc_helper${i}_test.go\":\"$H\""
+done
+echo "{\"Replace\":{$OV}}" > "$D/ov.json"
 cd "$REPO" && PATH=/opt/veriftools/go1.26.8/bin:$PATH GOFLAGS=-mod=mod GOPROXY=off GOSUMDB=off GOTOOLCHAIN=local \
   go test $EXTRA -overlay "$D/ov.json" -vet=off -count=1 -timeout 120s -run 'TestSonicvcScenario' -v "./$PKG" 2>&1 | tail -15
